@@ -285,6 +285,32 @@ def run(ctx):
                "Bus::output_%s returns what the program wrote to %#04x" % (nm, 0xFE + k), p.need_body("%s::output_%s" % (BUS, nm)).loc(),
                "output_fe(), output_ff() after the write: %s" % got)
 
+    # ---- the CPU reaches bus state only through Bus::read / Bus::write ------------------------------
+    cg = mirutil.call_graph(p)
+    RMP = "L::machine::raw::"
+    stage_calls = {
+        RMP + "MachineAfterAluCalculations::<'a>::write_to_memory": {BUS + "::write"},
+        RMP + "MachineAfterWordUpdate::<'a>::read_from_memory": {BUS + "::read"},
+        RMP + "MachineAfterMemoryRead::<'a>::calculate_alu_output": set(),
+    }
+    for fn_, allowed in stage_calls.items():
+        b_ = p.need_body(fn_)
+        busc = set()
+        for path_ in [fn_] + [k_ for k_ in p.bodies if k_.startswith(fn_ + "::{closure")]:
+            for c_ in cg.get(path_, ()):
+                if c_.startswith(BUS + "::") or c_.startswith("L::machine::board::Board::"):
+                    busc.add(c_)
+        chk.ob("cpu-stage/%s" % fn_.rsplit("::", 1)[-1], busc <= allowed,
+               "the data-path stage touches the bus only through %s" % (sorted(a_.rsplit("::", 1)[-1] for a_ in allowed) or "nothing"),
+               b_.loc(), "bus calls: %s" % sorted(busc))
+    callers = sorted(b_ for b_, cs_ in cg.items() if (BUS + "::misr_mut") in cs_ and "::tests::" not in b_)
+    allowed_misr = {"L::machine::raw::RawMachine::trigger_key_edge_interrupt",
+                    RMP + "MachineAfterRegWrite::<'a>::update_instruction_from_bus"}
+    chk.ob("misr-writers", set(callers) <= allowed_misr,
+           "the interrupt status register is changed only by the key trigger and by the RETI detection at an opcode fetch "
+           "(never by a program's store: a write to 0xF9 sets the mask only)", p.need_type(BUS)["file"],
+           "callers of Bus::misr_mut: %s" % callers)
+
     # ---- single writers -----------------------------------------------------------
     expect_writers = {
         "input_reg": {BUS + "::input_fc", BUS + "::input_fd", BUS + "::input_fe", BUS + "::input_ff",
